@@ -97,6 +97,33 @@ def cast_table_tie(ctx):
     ctx.count("cast_table_templates", len(lines))
 
 
+ARITY = [
+    "res / on get -> f str;\nlet f x y = { 'a x, 'b y };\n",
+    "let f x y = { 'a x, 'b y };\nres / on get -> f str;\n",
+    "res / on get -> f str num bool;\nlet f x y = { 'a x, 'b y };\n",
+    "let f x y = { 'a x, 'b y };\nres / on get -> f str num bool;\n",
+    "let u = concat (/a) (/b) (/c);\nres u on get -> {};\n",
+    "let u = concat (/a);\nres u on get -> {};\n",
+    "let g h = h str;\nlet f x y = { 'a x, 'b y };\nres / on get -> <g f>;\n",
+    "let f x = x;\nlet g = f;\nres / on get -> <g str num>;\n",
+]
+
+
+def mutate_arity(rng, text):
+    """drop or duplicate one argument of an application `f a b` of a generated function (names fN)"""
+    import re
+    apps = [m for m in re.finditer(r"\b(f\d+)((?: (?:\([^()]*\)|[A-Za-z0-9_@]+))+)", text) if not text[:m.start()].rstrip().endswith("let")]
+    if not apps:
+        return "res / on get -> fzz str;\nlet fzz x y = { 'a x, 'b y };\n" + text
+    m = rng.choice(apps)
+    args = re.findall(r" (\([^()]*\)|[A-Za-z0-9_@]+)", m.group(2))
+    if rng.random() < 0.5 and len(args) > 1:
+        args = args[:-1]
+    else:
+        args = args + [args[-1]]
+    return text[:m.start()] + m.group(1) + "".join(" " + a for a in args) + text[m.end():]
+
+
 def check(ctx):
     ctx.proof = core.proof_stage("C01", thorough=ctx.thorough)
     ok, out = core.ensure_harness()
@@ -125,8 +152,13 @@ def check(ctx):
             ill.append(q)
         cy = [cyc.gen_cyclic(ctx.rng) for _ in range(n // 2)]
         ps = ps + ill + [c[0] for c in cy]
-        for s in cyc.CORPUS:
+        for s in cyc.CORPUS + ARITY:
             ps.append({"mods": {"file:///w/main.oal": s}, "main": "file:///w/main.oal", "features": ["corpus"], "ast": None})
+        # applications with an argument too few or too many, before and after the declaration of the function
+        for p in progs.gen_programs(ctx, 300 if ctx.thorough else 60, start=9000):
+            q = {"mods": dict(p["mods"]), "main": p["main"], "features": ["arity"], "ast": None}
+            q["mods"][q["main"]] = mutate_arity(ctx.rng, q["mods"][q["main"]])
+            ps.append(q)
     progs.feature_stats(ctx, ps)
     if not ctx.replay:
         # the evaluator tie: outcome (document, located error, panic site) of eval.rs = outcome of Model/Eval.v
